@@ -615,7 +615,7 @@ def _read_exact(stream: "SupportsRead[bytes]", size: int) -> bytes:
     return data
 
 
-def _wire_type_matches(wire_type: int, proto_type: str) -> bool:
+def _wire_type_matches(wire_type: int, proto_type: str, repeated: bool) -> bool:
     """Whether a field of ``proto_type`` can arrive with ``wire_type``."""
     if wire_type == WIRE_VARINT:
         return proto_type in WIRE_VARINT_TYPES
@@ -625,7 +625,9 @@ def _wire_type_matches(wire_type: int, proto_type: str) -> bool:
         return proto_type in WIRE_FIXED_64_TYPES
     if wire_type == WIRE_LEN_DELIM:
         # length-delimited types, or a packed run of a repeated scalar
-        return proto_type in WIRE_LEN_DELIM_TYPES or proto_type in PACKED_TYPES
+        return proto_type in WIRE_LEN_DELIM_TYPES or (
+            repeated and proto_type in PACKED_TYPES
+        )
     return False
 
 
@@ -1381,7 +1383,8 @@ class Message(ABC):
                 continue
 
             meta = proto_meta.meta_by_field_name[field_name]
-            if not _wire_type_matches(parsed.wire_type, meta.proto_type):
+            repeated = proto_meta.default_gen[field_name] is list
+            if not _wire_type_matches(parsed.wire_type, meta.proto_type, repeated):
                 # The sender uses this number for a field of another type: keep
                 # the data as an unknown field rather than mis-decoding it.
                 self._unknown_fields += parsed.raw
